@@ -1105,6 +1105,17 @@ func (x *rtExec) stateDeclText(ws []rtWhere) string {
 		w := x.stateDecls[n]
 		if w == 0 {
 			sb.WriteString("(declare-fun " + n + " () Bool)\n")
+			// a precondition on a boolean field: `where f in 0` (false) / `where f in 1` (true)
+			for _, wh := range ws {
+				if wh.Name != strings.TrimPrefix(n, "st_") || wh.Range || len(wh.Vals) != 1 {
+					continue
+				}
+				if wh.Vals[0] == 0 {
+					sb.WriteString("(assert (not " + n + "))\n")
+				} else {
+					sb.WriteString("(assert " + n + ")\n")
+				}
+			}
 			continue
 		}
 		sb.WriteString(fmt.Sprintf("(declare-fun %s () (_ BitVec %d))\n", n, w))
@@ -1172,6 +1183,13 @@ func (e *Engine) verifyRoundTrip(ps *PkgSpec, rt *RoundTrip) (res *FuncResult) {
 				pre = append(pre, "(bvsle "+name+" "+bvConst(*rt.MaxLen, 64)+")")
 			}
 			v := rtVal{k: rtStr, bv: bvVal{name, 64, true}, idx: 1}
+			args = append(args, v)
+			dataArgs = append(dataArgs, v)
+		} else if bt, ok := p.Type().Underlying().(*types.Basic); ok && bt.Kind() == types.Bool {
+			// a bool: a symbolic truth value, compared with the decoder's bool result
+			name := "arg_" + p.Name()
+			decls = append(decls, fmt.Sprintf("(declare-fun %s () Bool)", name))
+			v := rtVal{k: rtBool, b: name}
 			args = append(args, v)
 			dataArgs = append(dataArgs, v)
 		} else {
@@ -1375,13 +1393,17 @@ func (e *Engine) verifyRoundTrip(ps *PkgSpec, rt *RoundTrip) (res *FuncResult) {
 					add(clause, pc, "(not (and "+strings.Join(conj, " ")+"))", trail)
 					continue
 				}
-				if len(dp.res) < 1 || (dp.res[0].k != rtBV && dp.res[0].k != rtStr) || dp.res[0].k != arg.k {
+				if len(dp.res) < 1 || (dp.res[0].k != rtBV && dp.res[0].k != rtStr && dp.res[0].k != rtBool) || dp.res[0].k != arg.k {
 					panic(unsupported("roundtrip: decoder result"))
 				}
 				db, _ := nbytes(dp.st.in[:dp.st.pos])
 				trail := fmt.Sprintf("decoder consumed %d of %d protocol bytes", db, k)
 				if db != k || (len(dp.res) > 1 && dp.res[len(dp.res)-1].k != rtNilErr) {
 					add(clause, pc, "true", trail+" (or reports an error)")
+					continue
+				}
+				if arg.k == rtBool {
+					add(clause, pc, "(not (= "+dp.res[0].b+" "+arg.b+"))", trail)
 					continue
 				}
 				a := arg.bv
